@@ -189,7 +189,14 @@ impl Prop for C07Prop {
         };
 
         // 1. growable buffer (fault free)
-        match sml_rs::transport::encode::<Vec<u8>>(p) {
+        // the payload is handed over as a slice (items `&u8`, exact hint), as a filter over a
+        // longer source (items `u8`, loose upper bound) or by value with a lower bound only
+        let enc1 = match p.len() % 3 {
+            0 => sml_rs::transport::encode::<Vec<u8>>(p),
+            1 => sml_rs::transport::encode::<Vec<u8>>((0..p.len() + 5).filter_map(|i| p.get(i).copied())),
+            _ => sml_rs::transport::encode::<Vec<u8>>(p.iter().copied().chain(core::iter::empty()).skip_while(|_| false)),
+        };
+        match enc1 {
             Ok(f) => {
                 if f != want {
                     fail("C07.buffer-encoder-format", format!("encode::<Vec>: {}", first_diff(&f, &want)), &mut violation);
@@ -267,7 +274,11 @@ impl Prop for C07Prop {
         // 3. the configured buffer: fixed capacity or Vec with allocation failure
         match l.buf {
             BufKind::Arr(n) => {
-                let r: Result<Vec<u8>, ()> = crate::with_cap!(n, B => sml_rs::transport::encode::<B>(p).map(|b| b.to_vec()).map_err(|_| ()));
+                let r: Result<Vec<u8>, ()> = if p.len() % 2 == 0 {
+                    crate::with_cap!(n, B => sml_rs::transport::encode::<B>(p).map(|b| b.to_vec()).map_err(|_| ()))
+                } else {
+                    crate::with_cap!(n, B => sml_rs::transport::encode::<B>((0..p.len() + 9).filter_map(|i| p.get(i).copied())).map(|b| b.to_vec()).map_err(|_| ()))
+                };
                 let fits = want.len() <= n;
                 if want.len() == n {
                     st.bump("probe", "exact-fit");
